@@ -227,7 +227,7 @@ def run(chk, replay=None):
             if nontrivial(r):
                 sigs.add((c.header.split(" sched=")[0], tuple(c.ops), tuple(realised(r))))
         if len(chk.cov["samples"]) < 5 and c.tag in ("random", "pool") and len(r.trace) < 70 and (k == "pool" or nontrivial(r)) \
-                and not any(s.get("kind") == k for s in chk.cov["samples"][1:]):
+                and sum(1 for s in chk.cov["samples"] if s.get("kind") == k) < 2:
             chk.sample({"kind": k, "case": c.text().split("\n")[:-1], "events": [" ".join(e) for e in r.events][:12],
                         "schedule": realised(r)[:60], "stuck": r.stuck, "pool": r.extra[:4]})
     t_or = time.time()
